@@ -42,8 +42,9 @@ ChainOK(CT, tps, pre, j, x) ==
   ELSE IF Ground(b[1]) THEN SubTop(CT, x, b[1]) ELSE FALSE
 SimpleRequests(CT, tps, pre) ==
   \A j \in DOMAIN tps : tps[j].n \in DOMAIN pre => (pre[tps[j].n].k \notin {"W", "P", "K"} /\ ChainOK(CT, tps, pre, j, pre[tps[j].n]))
+OptOf(ev) == IF "opt" \in DOMAIN ev THEN ev.opt ELSE DefaultOpt
 InstJudged(CT, ev, o) ==
-  LET b == InstBad(CT, ev.tps, ev.pre, ev.choices, ev.sw, ev.outs[o].args, ev.outs[o].map)
+  LET b == InstBad(CT, ev.tps, ev.pre, EffChoices(ev.tps, ev.choices, OptOf(ev)), ev.sw, ev.outs[o].args, ev.outs[o].map)
       always == {"OneArgumentPerParameter", "NoPrimitiveOrBareArgument", "SwitchesDeep", "MapConsistent"} IN
   IF InstShape(ev, ev.outs[o].args) = "DependentRequest"
   THEN b \cap (always \cup (IF SimpleRequests(CT, ev.tps, ev.pre) THEN {"WithinBound"} ELSE {})) ELSE b
